@@ -370,6 +370,13 @@ class Codec:
         viol = []
         if out[0] == 'err' and not isinstance(out[1], (TypeError, ValueError)):
             viol.append(('C09', 'error_class', 'scrub %r: %r' % (a, out[1])))
+        def _has_bad(q):
+            return q[0] == 'bad' or (q[0] in ('list', 'tuple') and any(_has_bad(z) for z in q[1]))
+        if a[0] == 'bad' and not (out[0] == 'err' and isinstance(out[1], TypeError)):
+            viol.append(('C14', 'reject_type', 'a setting of type %s is %s' % (
+                type(a[1]).__name__, 'accepted as %r' % [str(q) for q in out[1]] if out[0] == 'ok' else 'answered with %r' % out[1])))
+        if a[0] in ('list', 'tuple') and any(q[0] == 'bad' and q[1] is not None and not isinstance(q[1], (list, tuple)) for q in a[1]) and out[0] == 'ok':
+            viol.append(('C14', 'reject_type', 'a list holding an unsupported type is accepted: %r -> %r' % (a, [str(q) for q in out[1]])))
         if a[0] == 'str':
             want = O.format_string_accepts(a[1], self.mod.AnsiFormat.__members__)
             if want is True and out[0] != 'ok':
@@ -431,6 +438,24 @@ class Codec:
                 got = ([r[1].settings_at(0)], str(r[1]), [str(q) for q in r[1].ansi_settings_at(0)], r[1].is_formatting_parsable(), r[1].to_str(optimize=False))
                 if got != want:
                     viol.append(('C14', 'spelling_equiv', '%s %s (%r): %r vs %r' % (name, label, a, got, want)))
+        # the same spelling used twice around a conflicting setting: every spelling gives separate objects
+        def scenario(f):
+            z = A('abcd')
+            z.apply_formatting(f, 0, 4)
+            for c in (32, 42, 22, 24):
+                z.apply_formatting(c, 0, 4)
+            z.apply_formatting(f, 1, 2)
+            z.remove_formatting(f, 2, 3)
+            return [z.settings_at(i) for i in range(4)], str(z)
+        want_sc = call(lambda: scenario(m))
+        for label, a in forms[1:]:
+            got_sc = call(lambda: scenario(P.build_sarg(a, self.mod)))
+            if got_sc != want_sc and not (got_sc[0] == 'err' and want_sc[0] == 'err'):
+                viol.append(('C14', 'spelling_equiv', '%s %s used twice around a conflicting setting: %r vs %r' % (name, label, got_sc[1], want_sc[1])))
+        # ... and the member itself against its integer codes
+        ints_sc = call(lambda: scenario([int(c) for t in ts for c in t.split(';')]))
+        if ints_sc != want_sc and not (ints_sc[0] == 'err' and want_sc[0] == 'err'):
+            viol.append(('C14', 'spelling_equiv', '%s as enum member used twice around a conflicting setting: %r vs its codes %r' % (name, want_sc[1], ints_sc[1])))
         v = A('x', '[' + ';'.join(ts))
         if v.settings_at(0) != ';'.join(ts) or T.run(str(v))[0] != T.run(str(ref))[0]:
             viol.append(('C14', 'spelling_verbatim', name))
